@@ -374,4 +374,47 @@ def applyCmd (c : Canvas) : Cmd → Canvas
 colours and spacing are left as they are -/
 def initText (t : TextSt) : TextSt := { t with font := 0, prop := true, tsH := 1, tsV := 1, wrap := true }
 
+/-! ## Calls on the text side of ONE image object, in any order (the `text.sess` records of C20)
+
+The object is the pair canvas × text state; a call changes one of them (or neither: the metric queries).  The model
+answers every query from the current state: there is no other state (no cached line height, no memo of a glyph width). -/
+
+inductive TextCall where
+  | font (n : Int) (prop : Bool)          -- `SetFont`
+  | size (h v : Int)                      -- `SetTextSize`
+  | spacing (s : Nat)                     -- `SetCharSpacingCompensation` (a byte)
+  | wrap (b : Bool)                       -- `SetTextWrap`
+  | cursor (x y : Int)                    -- `SetCursor`
+  | color (b : Bool)                      -- `SetTextColor`
+  | newImage (w h : Nat)                  -- `NewImage` on the object in use
+  | fromBytes (w h : Nat) (bytes : Array (BitVec 8))   -- `CreateFromBytes` on the object in use
+  | strWidth (s : List Nat)               -- `StrWidth`   (query)
+  | lineHeight                            -- `LineHeight` (query)
+  | charWidth (ch : Nat)                  -- `GetCharWidth` / `GetCharStart` (query)
+  | render (s : List Nat)                 -- `RenderText`
+  | drawChar (x y : Int) (ch : Nat) (col bg : Bool) (h v : Int)   -- direct `DrawChar` with its own sizes
+
+def applyCall (st : Canvas × TextSt) : TextCall → Canvas × TextSt
+  | .font n p => (st.1, setFont st.2 n p)
+  | .size h v => (st.1, setTextSize st.2 h v)
+  | .spacing s => (st.1, { st.2 with spacing := s % 256 })
+  | .wrap b => (st.1, { st.2 with wrap := b })
+  | .cursor x y => (st.1, setCursor st.2 x y)
+  | .color b => (st.1, setTextColor st.2 b)
+  | .newImage w h => (newImageOn st.1.geo.inv w h, initText st.2)
+  | .fromBytes w h b => (createFromBytesOn st.1.geo.inv w h b, initText st.2)
+  | .strWidth _ => st
+  | .lineHeight => st
+  | .charWidth _ => st
+  | .render s => renderText st s
+  | .drawChar x y ch col bg h v => (drawChar st.1 st.2 x y ch col bg h v, st.2)
+
+/-- the object after a call history -/
+def runCalls (st : Canvas × TextSt) (calls : List TextCall) : Canvas × TextSt := calls.foldl applyCall st
+
+/-- the three text states of the final case of a session whose history left the state `t`: wrapping off, cursor set;
+`C` additionally at size 1 -/
+def sessA (t : TextSt) (cx cy : Int) : TextSt := setCursor { t with wrap := false } cx cy
+def sessC (t : TextSt) (cx cy : Int) : TextSt := setCursor (setTextSize { t with wrap := false } 1 1) cx cy
+
 end RawPanelVerif.Mono
